@@ -68,7 +68,8 @@ func (c *compression) compress(req *http.Request, resp *http.Response) bool {
 	// nor the ContentLength field may keep the length of the original.
 	resp.Header.Del(keyContentLength)
 	resp.ContentLength = -1
-	resp.Header.Set(keyContentEncoding, "gzip")
+	// gzip is applied on top of the codings the body already carries.
+	resp.Header.Add(keyContentEncoding, "gzip")
 	resp.Header.Add(keyVary, keyContentEncoding)
 
 	resp.Body = readers.NewGZipCompressReader(resp.Body)
